@@ -147,6 +147,19 @@ def convertFileIndex (cx : Ctx) (index : Nat) : Res (Option Nat) :=
     | some id => .ok (some (fileRaw cx.version id))
     | none => .error .invalidFileIndex
 
+/-- `ConvertUnit::convert_attribute_value`, `DW_AT_vtable_elem_location`: the expression is copied
+verbatim (`Expression::raw`) exactly when it is one `DW_OP_constu` operation and nothing else — the
+vtable index shape that gdb matches, which `Expression::from` would re-encode as `DW_OP_lit<n>`.
+Anything else goes through `convert`, so that references inside it are converted. -/
+def vtableRaw (bs : Bytes) : Bool :=
+  match bs with
+  | op :: rest =>
+    op == 0x10 &&
+      (match Leb.unsigned rest with
+       | .ok (_, []) => true
+       | _ => false)
+  | [] => false
+
 /-- `convert_attribute_value` -/
 def convertValue (cx : Ctx) (a : RAttr) : Res AttrVal :=
   if a.form = .implicitConst then
@@ -169,7 +182,7 @@ def convertValue (cx : Ctx) (a : RAttr) : Res AttrVal :=
     | .sdata, .int x => .ok (.sdata x)
     | .udata, .num x => .ok (.udata x)
     | .exprloc, .bytes b =>
-      if a.name = DW_AT_vtable_elem_location ∧ b.head? = some (UInt8.ofNat DW_OP_constu) then
+      if a.name = DW_AT_vtable_elem_location ∧ vtableRaw b then
         .ok (.exprloc [.raw b])
       else do
         let items ← cx.convExpr b
